@@ -482,6 +482,7 @@ class ExternalOptimizerMixin(Optimizer):
                 model, val = temp
             rt.append(val)
 
+        self._cleanup(client_data)
         return model, rt
 
     def _optimize(self, goal: Goal, strategy: str, extra_assumption: Optional[List[FNode]] = None) -> Optional[Tuple[Model, FNode]]:
